@@ -55,7 +55,10 @@ def main():
         tb = traceback.format_exc()
         ctx.log("HARNESS ERROR\n" + tb)
         ctx.tie_broken.append("harness error: " + tb[-1500:])
-    return core.finish(ctx)
+    rc = core.finish(ctx)
+    if rc == 0:
+        ctx.cleanup()        # (the scratch directory of a run that reports something is kept for inspection)
+    return rc
 
 
 if __name__ == "__main__":
